@@ -239,7 +239,9 @@ def run_model(lines, full=True, timeout=600):
     """Run case lines through the extracted model; one output line per
     non-directive input line."""
     inp = ['!mode full' if full else '!mode result'] + list(lines)
-    p = subprocess.run([DRIVER], input='\n'.join(inp) + '\n', text=True,
+    # extracted code and List functions are not tail recursive: lift the stack limit
+    p = subprocess.run(['bash', '-c', f'ulimit -s unlimited 2>/dev/null; exec "{DRIVER}"'],
+                       input='\n'.join(inp) + '\n', text=True,
                        capture_output=True, timeout=timeout)
     if p.returncode != 0:
         raise RuntimeError(f'driver failed: {p.stderr[-2000:]}')
